@@ -16,6 +16,7 @@
 
 #include "vmd_server.h"
 #include "vmd_protocol.h"
+#include "../nanoisa/verifier.h"
 #include "vm.h"
 #include "vm_ffi.h"
 #include "../nanoisa/nvm_format.h"
@@ -205,6 +206,18 @@ static void *client_thread(void *arg) {
 
         if (!module) {
             vmd_msg_send_error(fd, "Invalid .nvm format");
+            break;
+        }
+
+        /* Verify bytecode safety before execution, as standalone nano_vm does: a module
+         * that passes the CRC but has, say, a function entry pointing outside the code
+         * section must end this session with an error, not the daemon with a crash. */
+        NvmVerifyResult vr = nvm_verify(module);
+        if (!vr.ok) {
+            char vbuf[400];
+            snprintf(vbuf, sizeof(vbuf), "Bytecode verification failed: %s", vr.error_msg);
+            vmd_msg_send_error(fd, vbuf);
+            nvm_module_free(module);
             break;
         }
 
